@@ -373,8 +373,9 @@ def compare_stable(sa, sb, periodic=False):
     if A["title"] != B["title"]:
         out.append(("title", "%r -> %r" % (A["title"], B["title"])))
     for k, (p, q) in enumerate(zip(A["atoms"], B["atoms"])):
-        if p[0] != q[0] or p[1] != q[1] or p[4] != q[4]:
-            out.append(("atom", "atom %d element/label/anisotropy %r -> %r" % (k, (p[0], p[1], p[4]), (q[0], q[1], q[4]))))
+        # the anisotropy FLAG may legitimately flip when the tensor is isotropic anyway; the tensor itself is compared below
+        if p[0] != q[0] or p[1] != q[1]:
+            out.append(("atom", "atom %d element/label %r -> %r" % (k, (p[0], p[1]), (q[0], q[1]))))
         if periodic:
             same = all(abs((x - y) - round(x - y)) <= 1e-9 for x, y in zip(p[2], q[2]))
         else:
